@@ -607,6 +607,20 @@ def gen_reconnect (rng, n):
   """A datapath reconnects and completes before its stale connection closes."""
   for _ in range(n):
     d = rng.randrange(2)
+    if rng.random() < 0.25:
+      # two connections of one datapath, the one accepted *first* finishes its
+      # handshake *last* (so it is the most recent live one); then the other
+      # closes - and later the first
+      a, b = (0, 1) if rng.random() < 0.5 else (1, 0)
+      ops = [["connect", 0], ["connect", 1],
+             ["msg", b, "hello"], ["msg", a, "hello"],
+             ["msg", b, "features", d], ["msg", b, "barrier_ok"], ["send", d],
+             ["msg", a, "features", d], ["msg", a, rng.choice(["barrier_ok", "barrier_err"])],
+             ["send", d], ["lose", b, rng.choice(["eof", "reset", "fatal", "app"])],
+             ["send", d], ["msg", a, "port_status", 2], ["send", d],
+             ["lose", a, rng.choice(["eof", "app"])], ["send", d]]
+      yield dict(ops=ops)
+      continue
     ops = [["connect", 0], ["msg", 0, "hello"], ["msg", 0, "features", d],
            ["msg", 0, "barrier_ok"], ["send", d],
            ["connect", 1], ["msg", 1, "hello"], ["msg", 1, "features", d]]
